@@ -6,6 +6,7 @@ pygopherd.server.<class>, pwd, grp, its own preparation helpers) are replaced
 for the duration of one call and restored afterwards."""
 import configparser
 import errno
+import io
 import os
 import shutil
 import sys
@@ -176,6 +177,7 @@ class Recorder:
         self.injected = None
         self.injected_at = {}
         self.cfgpath = cfgpath
+        self.docroot = None       # real scratch directory standing for ROOT (the runs that go on to answer requests)
         self.fork_parent = fork_parent
         self.named = {}
 
@@ -195,6 +197,8 @@ class Recorder:
         if isinstance(x, (tuple, list)) and all(isinstance(y, (int, Sym)) for y in x):
             return "(" + ",".join(self.render(y) for y in x) + ")"
         if isinstance(x, str):
+            if self.docroot is not None and x == self.docroot:
+                return ROOT
             return CONFNAME if x == self.cfgpath else x
         if x is ssl.Purpose.CLIENT_AUTH:
             return "ssl.Purpose.CLIENT_AUTH"
@@ -286,7 +290,7 @@ class ModProxy:
         return fn
 
 
-def write_config(repo, path, opts):
+def write_config(repo, path, opts, root=None):
     cp = configparser.ConfigParser()
     cp.read(os.path.join(repo, "conf", "pygopherd.conf"))
     S = "pygopherd"
@@ -298,8 +302,8 @@ def write_config(repo, path, opts):
     cp.set(S, "timeout", "60")
     cp.set(S, "servername", "gopher.example")
     cp.remove_option(S, "advertisedport")
-    cp.set(S, "root", ROOT)
-    cp.set(S, "servertype", "ForkingTCPServer")
+    cp.set(S, "root", root or ROOT)
+    cp.set(S, "servertype", opts["stype"] if opts.get("stype") is not None else "ForkingTCPServer")
     cp.set(S, "port", "70")
     cp.set(S, "detach", spelled("detach", "yes" if opts["detach"] else "no"))
     cp.set(S, "mimetypes", os.path.join(repo, "conf", "mime.types"))
@@ -325,8 +329,102 @@ def write_config(repo, path, opts):
 _MIME_DONE = {}
 
 
-def run_case(drv, tmp, entry, opts, fail, fork_parent, start="root"):
-    """One real start-up under substitution.  Returns the canonical outcome."""
+class FakeConn:
+    """An accepted connection as the returned server's per-request code sees it: the request bytes
+    are there to read, everything written is kept."""
+
+    def __init__(self, drv, data):
+        self._drv = drv
+        self._data = data
+        self.rfile = io.BytesIO(data)
+        self.out = bytearray()
+        self.files = []
+
+    def makefile(self, mode="r", *a, **k):
+        if "r" in mode:
+            return self.rfile
+        w = self._drv.KeepBytesIO()
+        self.files.append(w)
+        return w
+
+    def send(self, b, *a):
+        self.out += bytes(b)
+        return len(bytes(b))
+
+    def sendall(self, b, *a):
+        self.out += bytes(b)
+
+    def recv(self, n, flags=0):
+        import socket
+        if flags & socket.MSG_PEEK:
+            return self._data[:n]
+        return self.rfile.read(n)
+
+    def fileno(self):
+        return -1
+
+    def getpeername(self):
+        return ("10.77.77.77", 7777)
+
+    def getsockname(self):
+        return ("0.0.0.0", 70)
+
+    def settimeout(self, *a):
+        pass
+
+    def setsockopt(self, *a):
+        pass
+
+    def shutdown(self, *a):
+        pass
+
+    def close(self):
+        pass
+
+    def written(self):
+        out = bytes(self.out)
+        for w in self.files:
+            v = getattr(w, "final", None)
+            if v is None:
+                try:
+                    v = w.getvalue()
+                except Exception:
+                    v = b""
+            out += v
+        return out
+
+
+def answer(drv, server, selector):
+    """One gopher request through the per-request code of the server object that initialize()
+    returned (its own handler class, its own configuration), in this process."""
+    conn = FakeConn(drv, selector.encode("utf-8", "surrogateescape") + b"\r\n")
+    client = ("10.77.77.77", 7777)
+    exc = None
+    try:
+        with drv.time_limit():
+            threaded = getattr(server, "process_request_thread", None)
+            if callable(threaded):
+                threaded(conn, client)            # what the handler thread runs
+            else:
+                server.finish_request(server.wrap_socket(conn), client)   # what the forked child runs
+                server.shutdown_request(conn)
+    except BaseException as e:  # noqa
+        exc = type(e).__name__ + ": " + str(e)
+    return {"selector": selector, "out": drv.b2s(conn.written()), "exc": exc}
+
+
+def shipped_servertypes():
+    """Names of the server classes pygopherd.server ships (what `servertype` can name)."""
+    import pygopherd.server as srv
+    base = srv.BaseServer
+    return sorted(n for n, c in vars(srv).items()
+                  if isinstance(c, type) and c is not base and issubclass(c, base) and c.__module__ == srv.__name__)
+
+
+def run_case(drv, tmp, entry, opts, fail, fork_parent, start="root", docroot=None, selectors=None):
+    """One real start-up under substitution.  Returns the canonical outcome.
+    docroot: a real scratch directory configured as the document root (rendered as ROOT in the
+    record); selectors: requests put to the server object that initialize() returned."""
     import mimetypes
     import ssl as real_ssl
     import pygopherd as real_pkg
@@ -334,9 +432,11 @@ def run_case(drv, tmp, entry, opts, fail, fork_parent, start="root"):
     from pygopherd import GopherExceptions, logger, sighandlers as real_sig, initialization as ini
 
     cfgpath = os.path.join(tmp, CONFNAME)
-    write_config(drv.REPO, cfgpath, opts)
+    write_config(drv.REPO, cfgpath, opts, docroot)
     rec = Recorder(tuple(fail) if fail else None, cfgpath, fork_parent, start, opts)
+    rec.docroot = docroot
     cr = rec.creds
+    server = None
 
     def patch_config(cfg):
         orig_set = cfg.set
@@ -405,6 +505,11 @@ def run_case(drv, tmp, entry, opts, fail, fork_parent, start="root"):
     saved_tb = GopherExceptions.tracebacks
     saved_enc = dict(mimetypes.encodings_map)
     kind, origin, excname = None, None, None
+    if selectors:
+        # a freshly started process: whatever pygopherd keeps at module level (cached root path,
+        # handler list ...) is in its initial state BEFORE start-up and is not touched between
+        # start-up and the requests — what start-up leaves there is what the requests meet
+        drv.reset_lazies()
     try:
         ini.os, ini.ssl, ini.sighandlers, ini.open = os_proxy, ssl_proxy, sig_proxy, fake_open
         socketserver.socket = real_server.socket = sock_proxy
@@ -413,7 +518,7 @@ def run_case(drv, tmp, entry, opts, fail, fork_parent, start="root"):
             setattr(ini, f, wrap(f, o))
         try:
             if entry == "initialize":
-                ini.initialize(cfgpath)
+                server = ini.initialize(cfgpath)
             else:
                 cfg = patch_config(originals["init_config"](cfgpath))
                 logger.init(cfg)          # precondition of init_security in real life: the logger is set up
@@ -447,7 +552,19 @@ def run_case(drv, tmp, entry, opts, fail, fork_parent, start="root"):
     failed_call = None
     if fail and fail[0] < len(rec.attempts):
         failed_call = rec.attempts[fail[0]]
-    return {"kind": kind, "origin": origin, "exc": excname, "trace": rec.trace, "attempts": rec.n,
+    # the end state that matters to whoever connects afterwards: the configuration the RETURNED
+    # server object hands to its request handlers, and what that server answers
+    served_root, served_err, replies = None, None, None
+    if kind == "running" and entry == "initialize":
+        try:
+            served_root = rec.render(str(server.config.get("pygopherd", "root")))
+        except Exception as e:  # noqa
+            served_err = type(e).__name__ + ": " + str(e)
+        if selectors:
+            replies = [answer(drv, server, sel) for sel in selectors]
+    if selectors:
+        drv.reset_lazies()
+    return {"served_root": served_root, "served_err": served_err, "replies": replies, "kind": kind, "origin": origin, "exc": excname, "trace": rec.trace, "attempts": rec.n,
             "failed_call": failed_call, "start": start, "start_creds": cr.start, "final_creds": cr.as_list(), "attempted": rec.attempts}
 
 
@@ -489,6 +606,34 @@ def op_c19_one(job, drv):
         shutil.rmtree(tmp, ignore_errors=True)
 
 
+def op_c19_serve(job, drv):
+    """For each configuration: the real start-up (no failure injected) with a real scratch tree as
+    the configured document root — os.chroot / os.chdir are recorded, not executed, so the process
+    keeps seeing the whole file system: "/" is still the real "/" — and then the given requests
+    through the server object that initialize() returned.  {ROOT} in a selector stands for the
+    absolute path of the scratch document root."""
+    out = []
+    for cfgjob in job["configs"]:
+        w = drv.World({"tree": job["tree"]})
+        tmp = tempfile.mkdtemp(prefix="pgverif-c19-")
+        try:
+            root = os.path.realpath(w.root)
+            sels = [x.replace("{ROOT}", root) for x in job["selectors"]]
+            res = run_case(drv, tmp, "initialize", cfgjob["opts"], None, False, cfgjob.get("start", "root"),
+                           docroot=root, selectors=sels)
+            for r in res["replies"] or []:
+                r["selector"] = r["selector"].replace(root, "{ROOT}")
+                r["out"] = r["out"].replace(root, "{ROOT}")
+            out.append({"entry": "initialize", "opts": cfgjob["opts"], "fail": None, "fork_parent": False,
+                        "start": cfgjob.get("start", "root"), "res": res})
+        finally:
+            w.close()
+            shutil.rmtree(tmp, ignore_errors=True)
+    return out
+
+
 def register(OPS, drv):
     OPS["c19_sweep"] = lambda job: op_c19_sweep(job, drv)
     OPS["c19_one"] = lambda job: op_c19_one(job, drv)
+    OPS["c19_serve"] = lambda job: op_c19_serve(job, drv)
+    OPS["c19_servertypes"] = lambda job: shipped_servertypes()
